@@ -121,3 +121,12 @@ Proof.
 Qed.
 Lemma old_sam_variants_coords_refuted : exists reflen a, coords_ok reflen a = false /\ old_sam_variants_coords reflen a = true.
 Proof. exists 33%nat, (GffRegions [30%nat]). split; reflexivity. Qed.
+
+(* ---- the reference given with a SAM file is the sequence its header describes: checked by sam toPairAlign and sam variants since
+   repair D22 (before it neither compared the two lengths) ---- *)
+Definition sam_reference_ok (reflen sq_len : nat) : bool := Nat.eqb reflen sq_len.
+Definition old_sam_reference_ok (reflen sq_len : nat) : bool := true.
+Lemma sam_reference_mismatch_refused reflen sq_len : reflen <> sq_len -> sam_reference_ok reflen sq_len = false.
+Proof. intros H. apply Nat.eqb_neq. exact H. Qed.
+Lemma old_sam_reference_refuted : exists reflen sq_len, sam_reference_ok reflen sq_len = false /\ old_sam_reference_ok reflen sq_len = true.
+Proof. exists 17%nat, 20%nat. split; reflexivity. Qed.
